@@ -10,8 +10,11 @@ HERE = os.path.dirname(os.path.abspath(__file__))
 def run_call(repo, call, timeout=60):
     env = dict(os.environ, PYTHONPATH=repo + os.pathsep + os.path.dirname(HERE))
     py = PY if os.path.exists(PY) else sys.executable
-    p = subprocess.run([py, os.path.join(HERE, "replay_child.py")], input=json.dumps(call), capture_output=True, text=True,
-                       env=env, timeout=timeout)
+    try:
+        p = subprocess.run([py, os.path.join(HERE, "replay_child.py")], input=json.dumps(call), capture_output=True, text=True,
+                           env=env, timeout=timeout)
+    except subprocess.TimeoutExpired:
+        return {"kind": "timeout", "seconds": timeout}
     if p.returncode != 0 or not p.stdout.strip():
         return {"kind": "error", "stderr": p.stderr[-2000:]}
     return json.loads(p.stdout)
